@@ -254,8 +254,13 @@ func (c *evCluster) settle() []uint64 {
 		cur := c.snapshot()
 		c.mu.Lock()
 		cur = append(cur, uint64(len(c.calls)))
-		for _, k := range c.calls {
-			cur = append(cur, uint64(k.stage))
+		for a := uint64(1); a <= uint64(c.n); a++ {
+			// in key order: map iteration order is random
+			for b := uint64(1); b <= uint64(c.n); b++ {
+				if k := c.calls[[2]uint64{a, b}]; k != nil {
+					cur = append(cur, a, b, uint64(k.stage))
+				}
+			}
 		}
 		c.mu.Unlock()
 		if c15eqInts(cur, prev) {
@@ -411,8 +416,14 @@ func c01clGen(r *rng, n int, steps int) (in []uint64, obs []uint64, leaders int)
 			j := uint64(1 + r.intn(n))
 			emit([]uint64{4, j, c.nodes[j].r.CurrentTerm() + uint64(r.intn(3)), uint64(1 + r.intn(n)), uint64(r.intn(5)), uint64(r.intn(3))})
 		case x < 14:
+			// an AppendEntries from another server: a server never addresses itself (replication
+			// skips the local server), and the model does not cover runLeader's exit path for a
+			// leader told by "itself" to step down
 			j := uint64(1 + r.intn(n))
-			emit([]uint64{6, j, c.nodes[j].r.CurrentTerm() + uint64(r.intn(2)), uint64(1 + r.intn(n))})
+			if n >= 2 {
+				ld := 1 + (j-1+uint64(1+r.intn(n-1)))%uint64(n)
+				emit([]uint64{6, j, c.nodes[j].r.CurrentTerm() + uint64(r.intn(2)), ld})
+			}
 		default:
 			if len(cands) > 0 {
 				emit(cands[r.intn(len(cands))])
@@ -441,9 +452,9 @@ func c01clExec(cw *caseWriter, tag string, in []uint64) {
 
 func runC01cluster(cw *caseWriter, tier string, seed uint64) {
 	r := &rng{s: seed*7919 + 11}
-	count := 60
+	count := 250
 	if tier != "quick" {
-		count = 1500
+		count = 4000
 	}
 	type res struct {
 		tag     string
